@@ -107,22 +107,41 @@ def part_rules(prog, chk, pid):
             if a.op == "ref":
                 w.list_snapshots[a.args[0]] = e.d["snapshot_of"]
     apps = [e for e in res.events if e.kind == "mutate" and e.d["how"] == "append" and unsnap(e.d["value"]).op == "tuple" and len(unsnap(e.d["value"]).args[0]) == 3]
-    arms = {}
+    # an "arm" is one way a part comes about: the path facts of the append plus the conditions of conditional values inside the tuple
+    # (three appends under if / elif / else and one append of values chosen earlier are the same three arms)
+    def alternatives(t):
+        t = unsnap(t)
+        if t.op == "phi":
+            c, x, y = t.args
+            return [([(c, True)] + cs, v) for cs, v in alternatives(x)] + [([(c, False)] + cs, v) for cs, v in alternatives(y)]
+        return [([], t)]
+
+    arms = []
+    arms_tested = []
     for e in apps:
-        conds = [rel(f[1], f[2]) for f in e.ctx if f[0] == "if"]
-        key = []
-        for r in conds:
-            if r[0] == "rel" and r[1] in ("Is", "IsNot") and (r[3] is NONE or r[2] is NONE):
-                x = r[2] if r[3] is NONE else r[3]
-                key.append((r[1], "value" if "[1]" in canon(x) and "[0]" not in canon(x)[-6:] else canon(x)))
-        arms[len(arms)] = (e, conds)
-    ok = len(apps) == 3
-    why = "expected three TLV part constructions (delete key / delete value / set value), found %d" % len(apps)
+        base = list(getattr(e, "facts", ()) or ()) + [(f[1], f[2]) for f in e.ctx if f[0] == "if"]
+        for c0, pre_t in alternatives(unsnap(e.d["value"]).args[0][0]):
+            for c1, data_t in alternatives(unsnap(e.d["value"]).args[0][1]):
+                for c2, post_t in alternatives(unsnap(e.d["value"]).args[0][2]):
+                    conds = {}
+                    feasible = True
+                    for c, pol in base + c0 + c1 + c2:
+                        r = rel(c, bool(pol))
+                        if r[0] == "rel" and r[1] in ("Is", "IsNot") and (r[3] is NONE or r[2] is NONE):
+                            x = unsnap(r[2] if r[3] is NONE else r[3])
+                            if conds.get(x.uid, (r[1],))[0] != r[1]:
+                                feasible = False  # x is None and x is not None: this combination cannot occur
+                            conds[x.uid] = (r[1], x)
+                    if feasible:
+                        arms.append((e, sorted(v[0] for v in conds.values()), pre_t, data_t, post_t))
+                        arms_tested.append({v[1].uid: v[0] for v in conds.values()})
+    ok = len(arms) == 3
+    why = "expected three TLV part constructions (delete key / delete value / set value), found %d" % len(arms)
     layouts = []
     if ok:
-        for e in apps:
-            pre, data, post = [w.flatten(x) for x in unsnap(e.d["value"]).args[0]]
-            layouts.append((e, pre, data, post))
+        for e, conds, pre_t, data_t, post_t in arms:
+            pre, data, post = [w.flatten(x) for x in (pre_t, data_t, post_t)]
+            layouts.append((e, conds, pre, data, post))
 
         def is_key_hi(t):
             t = unsnap(t)
@@ -136,7 +155,7 @@ def part_rules(prog, chk, pid):
             return len(pre) == 3 and pre[0] == ("const", bytes([op])) and pre[1][0] == "int" and pre[1][1] == 1 and is_key_hi(pre[1][2]) and pre[2][0] == "int" and is_key_lo(pre[2][2], pre[1][2])
 
         kinds = []
-        for e, pre, data, post in layouts:
+        for e, conds, pre, data, post in layouts:
             if pre_ok(pre, 0x02) and data == [] and post == []:
                 kinds.append("delete-key")
             elif pre_ok(pre, 0x01) and len(data) == 2 and data[0][0] == "int" and data[0][1] == 1 and data[1] == ("const", b"\xff") and post == [("const", b"\xff")]:
@@ -149,18 +168,22 @@ def part_rules(prog, chk, pid):
         why = "TLV parts are %s; documented 02 KK KK | 01 KK KK VV FF FF | 01 KK KK VV LL content FF" % kinds
         if ok:
             # arm selection: delete-key iff value is None; delete-value iff value not None and content None
-            for (e, pre, data, post), kind in zip(layouts, kinds):
-                conds = [rel(f[1], f[2]) for f in e.ctx if f[0] == "if"]
-                txt = " & ".join(sorted(canon(show_rel(c)) for c in conds))
-                val_id = canon(unsnap(data[0][2])) if data else None
+            for (e, conds, pre, data, post), kind in zip(layouts, kinds):
                 if kind == "delete-key":
-                    good = len(conds) == 1 and conds[0][1] == "Is"
+                    good = conds == ["Is"]
                 elif kind == "delete-value":
-                    good = len(conds) == 2 and sorted(c[1] for c in conds) == ["Is", "IsNot"]
+                    good = conds == ["Is", "IsNot"]
                 else:
-                    good = len(conds) == 2 and all(c[1] == "IsNot" for c in conds)
+                    good = conds == ["IsNot", "IsNot"]
                 if not good:
-                    ok, why = False, "part '%s' is selected under %s" % (kind, txt)
+                    ok, why = False, "part '%s' is selected under the None-tests %s" % (kind, conds)
+            if ok:
+                # the same two values are tested throughout: value (None -> delete key), then content (None -> delete value)
+                by_kind = dict(zip(kinds, arms_tested))
+                (v_uid,) = by_kind["delete-key"].keys()
+                dv, sv = by_kind["delete-value"], by_kind["set-value"]
+                ok = dv.get(v_uid) == "IsNot" and sv.get(v_uid) == "IsNot" and set(dv) == set(sv) and [k for k, o in dv.items() if o == "Is"] == [k for k in sv if k != v_uid]
+                why = "the three parts are not selected by `value is None` / `content is None` on the same two values"
     chk.require(ok, P("tlv-parts"), fi.qualname, "02 KK KK | 01 KK KK VV FF / FF | 01 KK KK VV LL content / FF", where, "the three part constructions have the documented byte layouts and selection conditions (key big-endian, LL = len(content))", why)
     # ---- split test
     try:
